@@ -37,6 +37,7 @@ def run(ctx, rep):
     n = totality.report(ctx, rep, E, ec, occ, ALLOWED, "C08")
     nl = totality.check_termination(ctx, rep, E, ec)
     nr = totality.check_recursion(ctx, rep, E)
+    totality.check_cache_shape(ctx, rep, E)
     # NW: constraint state untouched
     eff = Effects(ctx)
     setter, table_vars = eff.table_vars()
@@ -57,8 +58,8 @@ def run(ctx, rep):
         rep.ob("NW", True, dec.node, dec, construct="writes of the decoder region to the constraint table / its memos",
                how="none (effect analysis over %d functions)" % len(E.quals), key="no-table-write", nontrivial=True)
     if n < 60:
-        raise AnalysisError("only %d raise sites enumerated in the decoder region (expected >= 60)" % n)
+        rep.floor_failures.append("only %d raise sites enumerated in the decoder region (expected >= 60)" % n)
     if nl < 4:
-        raise AnalysisError("only %d while-loops found in the decoder region (expected >= 4)" % nl)
+        rep.floor_failures.append("only %d while-loops found in the decoder region (expected >= 4)" % nl)
     rep.analysed.update({"region_functions": len(E.quals), "raise_sites": n, "while_loops": nl, "cycles": nr,
                          "engine_functions": sorted(ec.ran), "engine_errors": ec.errors})
